@@ -38,6 +38,36 @@ func refBE(u uint64, width int) []byte {
 	return b
 }
 
+// typeEncoderForms returns a TypeEncoder for zero's type and the byte order
+// through every public constructor and argument form that yields that order.
+func typeEncoderForms(zero interface{}, be bool) (names []string, encs []encode.Encoder, err error) {
+	add := func(n string, e *encode.TypeEncoder, er error) {
+		if er != nil && err == nil {
+			err = fmt.Errorf("%s: %v", n, er)
+		}
+		names, encs = append(names, n), append(encs, e)
+	}
+	t := reflect.TypeOf(zero)
+	if be {
+		e, er := encode.NewTypeEncoderEndian(zero, binary.BigEndian)
+		add("NewTypeEncoderEndian(BigEndian)", e, er)
+		e, er = encode.NewTypeEncoderEndianByType(t, binary.BigEndian)
+		add("NewTypeEncoderEndianByType(BigEndian)", e, er)
+		return
+	}
+	e, er := encode.NewTypeEncoder(zero)
+	add("NewTypeEncoder", e, er)
+	e, er = encode.NewTypeEncoderEndian(zero, binary.LittleEndian)
+	add("NewTypeEncoderEndian(LittleEndian)", e, er)
+	e, er = encode.NewTypeEncoderEndian(zero, nil)
+	add("NewTypeEncoderEndian(nil)", e, er)
+	e, er = encode.NewTypeEncoderEndianByType(t, binary.LittleEndian)
+	add("NewTypeEncoderEndianByType(LittleEndian)", e, er)
+	e, er = encode.NewTypeEncoderEndianByType(t, nil)
+	add("NewTypeEncoderEndianByType(nil)", e, er)
+	return
+}
+
 type intEnc struct {
 	name   string
 	enc    encode.Encoder
@@ -209,7 +239,7 @@ func refTypeT(v typeT, be bool) []byte {
 // C15 check.
 func C15(r *h.Run) {
 	thorough := r.Tier == "thorough"
-	r.Rule = "every value of the stated per-encoder domains (8/16-bit exhaustive; 32-bit exhaustive in thorough, lane-alphabet {00,01,7f,80,ff}^4 + all 1-/2-bit patterns + power-of-two neighbours in quick; 64-bit and native int: lane^8 + patterns; String16 every length in the stated set x 2 contents; Bytes{n}; Dummy; TypeEncoder struct, plain and defined (named) integer types in both byte orders); each value is checked with 0, 1 and 7 junk bytes appended; values are distinct by construction; non-trivial = encoding contains at least two different bytes"
+	r.Rule = "every value of the stated per-encoder domains (8/16-bit exhaustive; 32-bit exhaustive in thorough, lane-alphabet {00,01,7f,80,ff}^4 + all 1-/2-bit patterns + power-of-two neighbours in quick; 64-bit and native int: lane^8 + patterns; String16 every length in the stated set x 2 contents; Bytes{n}; Dummy; TypeEncoder struct, plain and defined (named) integer types in both byte orders, each through every public constructor and argument form that yields that order (by value / by reflect.Type, explicit order / nil)); each value is checked with 0, 1 and 7 junk bytes appended; values are distinct by construction; non-trivial = encoding contains at least two different bytes"
 	r.Assumptions = []string{"only the platform's int width (64) is explored", "reference layout is a hand-written shift/mask codec inside the harness", "Dummy's value domain is {nil}; Bytes{n}'s domain is slices of length n"}
 
 	gen := func(emit func(u interface{}) bool) {
@@ -464,16 +494,10 @@ func C15(r *h.Run) {
 					order = binary.BigEndian
 					name = "TypeEncoder(BE,struct)"
 				}
-				var te encode.Encoder
-				var err error
-				if !be {
-					// default endian path
-					te, err = encode.NewTypeEncoder(typeT{})
-				} else {
-					te, err = encode.NewTypeEncoderEndian(typeT{}, order)
-				}
+				_ = order
+				forms, tes, err := typeEncoderForms(typeT{}, be)
 				if err != nil {
-					fail(name, nil, "NewTypeEncoder failed: "+err.Error())
+					fail(name, nil, "constructor failed: "+err.Error())
 					return
 				}
 				// every field takes every lane pattern independently, others at a base pattern;
@@ -499,9 +523,11 @@ func C15(r *h.Run) {
 					if nontrivBytes(want) {
 						w.NontrivN++
 					}
-					if msg := checkEnc(w, te, v, want, func(a, c interface{}) bool { return reflect.DeepEqual(a, c) }); msg != "" {
-						fail(name, v, msg)
-						return
+					for fi, te := range tes {
+						if msg := checkEnc(w, te, v, want, func(a, c interface{}) bool { return reflect.DeepEqual(a, c) }); msg != "" {
+							fail(name+" via "+forms[fi], v, msg)
+							return
+						}
 					}
 					// pointer input is accepted too (reflect.Indirect)
 				}
@@ -536,9 +562,9 @@ func C15(r *h.Run) {
 						order = binary.BigEndian
 					}
 					name := fmt.Sprintf("TypeEncoder(%v,%s)", order, k.name)
-					te, err := encode.NewTypeEncoderEndian(k.zero, order)
+					forms, tes, err := typeEncoderForms(k.zero, be)
 					if err != nil {
-						fail(name, nil, "NewTypeEncoderEndian failed: "+err.Error())
+						fail(name, nil, "constructor failed: "+err.Error())
 						return
 					}
 					n := 1
@@ -569,9 +595,11 @@ func C15(r *h.Run) {
 						if nontrivBytes(want) {
 							w.NontrivN++
 						}
-						if msg := checkEnc(w, te, v, want, eqPlain); msg != "" {
-							fail(name, fmt.Sprintf("0x%x", uv), msg)
-							return
+						for fi, te := range tes {
+							if msg := checkEnc(w, te, v, want, eqPlain); msg != "" {
+								fail(name+" via "+forms[fi], fmt.Sprintf("0x%x", uv), msg)
+								return
+							}
 						}
 					}
 					w.Feature("type_encoder_int_kinds")
